@@ -363,6 +363,8 @@ def run(chk, repo, tier):
             chk.ob('C08-f', 'B1/B2', cls.key, 'multiply/__init__ chain resolves and binds', True,
                    f'{fm.key} and the constructor chain resolve', fm.loc())
 
+    from .c07 import product_shape_rule
+    product_shape_rule(chk, repo, 'C08-f')
     # ---------------------------------------------------------------- C08-e
     allowed = {'wavefront.Wavefront.__init__': 'validated by the setter',
                'wavefront.Wavefront.ptype#setter': 'the validating setter',
